@@ -155,7 +155,9 @@ func (e *Encoder) writeList(data interface{}) (int, error) {
 	}
 
 	for i := 0; i < vv.Len(); i++ {
-		e.WriteData(vv.Index(i).Interface())
+		if _, err := e.WriteData(vv.Index(i).Interface()); err != nil {
+			return 0, err
+		}
 	}
 	return vv.Len(), nil
 }
